@@ -408,3 +408,11 @@ func VAreaOP(ring Path64) float64 {
 
 // VAreaTriangle exposes areaTriangle.
 func VAreaTriangle(a, b, c Point64) float64 { return areaTriangle(a, b, c) }
+
+// VPath1InsidePath2 runs the real path1InsidePath2 on two synthetic output rings (each ≥ 1 point).
+func VPath1InsidePath2(ring1, ring2 Path64) bool {
+	return path1InsidePath2(vSynthRing(&OutRec{}, ring1), vSynthRing(&OutRec{}, ring2))
+}
+
+// VGetCleanPath runs the real getCleanPath on a synthetic output ring (≥ 1 point).
+func VGetCleanPath(ring Path64) Path64 { return getCleanPath(vSynthRing(&OutRec{}, ring)) }
